@@ -250,6 +250,15 @@ def exact_rule(facts, rep, rule="C09-EXACT"):
                 rep.check(good, rule, "bare-write:%s" % f.path, where(f, t["span"]),
                           "bare write() inside a Write adapter that returns the accepted count",
                           "serialiser calls Write::write directly: a short write silently drops bytes (use write_all)")
+    # no read-ahead wrapper of the crate's own around a reader it does not own: a BufReader/BufWriter created inside a parser or
+    # serialiser reads (writes) more than the structure at hand and loses the surplus when it is dropped -- invisible on readers that
+    # fill every request, fatal on ones that return short reads.  (zstd's decoder builds its own BufReader around the entry's bounded
+    # reader inside make_reader; that one owns the rest of the entry.)
+    wraps = sorted("%s in %s" % (t["callee"].split("::")[-3] if t["callee"].count("::") > 2 else t["callee"], f.path.split("::")[-1])
+                   for f in facts.fns for bi, t in f.calls()
+                   if re.search(r"io::(buffered::)?(bufreader::|bufwriter::|linewriter::)?(BufReader|BufWriter|LineWriter)::<[^>]*>::(new|with_capacity)$", t.get("callee") or ""))
+    okall &= bool(rep.check(not wraps, rule, "no-internal-buffering-wrapper", "", "the crate wraps no caller-owned stream in a BufReader/BufWriter",
+                            "a buffering wrapper is created around a stream the crate does not own: %s (read-ahead is lost when it is dropped)" % wraps[:3]))
     rep.count("bare_read_sites", nr)
     rep.count("bare_write_sites", nw)
     return okall
